@@ -10,7 +10,7 @@ import (
 	"github.com/evanphx/json-patch/v5/zzverif/vx"
 )
 
-var companionDocs = []string{`{"a":1}`, `[1,null]`, `{}`, `null`, `"s"`, `{"a":{"b":null}}`}
+var companionDocs = []string{`{"a":1}`, `[1,null]`, `{}`, `null`, `"s"`, `{"a":{"b":null}}`, " null\n", " [ ] "}
 
 var companionPatches = []string{
 	`[]`,
